@@ -96,7 +96,7 @@ def rsp_templates(fam, tier):
 def classify_cmd(fn):
     try:
         r = fn()
-    except nfc.clf.pn53x.Chipset.Error as e:
+    except nfc.clf.pn53x.Chipset.Error:
         return "ChipError", "Chipset.Error", None
     except IOError as e:
         return "IOError", "errno%s" % e.errno, None
